@@ -315,7 +315,10 @@ def run_macro_check(pid, tier, seed, wd):
     # ------------------------------------------------------------------ 1. model checking
     mc = SYS_MC[pid]
     mc_cfg = os.path.join(wd, "SystemMC.cfg")
-    consts = {"Quirks": set(), "Keys": set(mc["keys"]), "MaxVer": 5 if thorough else 3, "MaxHits": 2 if thorough else 1,
+    # the registry layout has three functions: its thorough bound is one version deeper, not two
+    big = mc["layout"] == "reg"
+    consts = {"Quirks": set(), "Keys": set(mc["keys"]), "MaxVer": (4 if big else 5) if thorough else 3,
+              "MaxHits": (1 if big else 2) if thorough else 1,
               "SizesMem": {1, 2, 4}, "LayoutSet": mc["layout"], "MaxLookups": mc["lookups"]}
     write_cfg(mc_cfg, "Spec", consts, invariants=["SysStateOK", "StatsAgree"], properties=["NoMonitorFails"],
               constraint="Bounded", view="View")
